@@ -22,6 +22,11 @@ enum Shape {
   Twice,
   /// one finalize operator value, cloned and subscribed twice: once per subscription
   Cloned,
+  /// never().finalize(f): the source's handle reports closed from the start
+  Never,
+  /// create(raw subscriber).finalize(f).take(1): unlike a subject, a raw source
+  /// delivers its terminal to an observer whose downstream has already finished
+  RawThenTake1,
 }
 
 #[derive(Default)]
@@ -30,14 +35,44 @@ struct Calls {
   at: Vec<(bool, usize)>,
 }
 
+/// object-safe face of a raw `create` subscriber handle
+trait RawHandle {
+  fn raw_next(&mut self, v: V);
+  fn raw_dup(&self) -> Box<dyn RawHandle>;
+  fn raw_complete(self: Box<Self>);
+  fn raw_error(self: Box<Self>, e: E);
+}
+macro_rules! raw_handle {
+  ($ty:ident) => {
+    impl<O: Observer<V, E> + 'static> RawHandle for $ty<O> {
+      fn raw_next(&mut self, v: V) {
+        self.next(v)
+      }
+      fn raw_dup(&self) -> Box<dyn RawHandle> {
+        Box::new(self.clone())
+      }
+      fn raw_complete(self: Box<Self>) {
+        (*self).complete()
+      }
+      fn raw_error(self: Box<Self>, e: E) {
+        (*self).error(e)
+      }
+    }
+  };
+}
+raw_handle!(SubscriberThreads);
+raw_handle!(Subscriber);
+
 macro_rules! fin_job {
-  ($fname:ident, $subj:ty, $fin:ident, $form:expr) => {
+  ($fname:ident, $subj:ty, $fin:ident, $form:expr, $subscriber:ident) => {
     fn $fname(shape: Shape, len: usize) -> Job {
       Job::new(format!("{:?} finalize {shape:?} L{len}", $form), move |ch, obs| {
         let _w = world::World::new();
         let mut src = <$subj>::default();
         let probe = Probe::new();
         let probe2 = Probe::new();
+        // the raw source's subscriber handle, once the pipeline is subscribed
+        let stash: std::rc::Rc<std::cell::RefCell<Option<Box<dyn RawHandle>>>> = Default::default();
         let calls: Arc<Mutex<Calls>> = Arc::new(Mutex::new(Calls::default()));
         let calls2: Arc<Mutex<Calls>> = Arc::new(Mutex::new(Calls::default()));
         // set by the harness while it is inside unsubscribe()
@@ -57,18 +92,36 @@ macro_rules! fin_job {
             }
           }
         };
-        let mut sub: Option<Box<dyn FnOnce()>> = Some(match shape {
+        let mut sub: Option<Box<dyn FnOnce(bool)>> = Some(match shape {
           Shape::Plain => {
             let u = src.clone().$fin(mk(&calls)).actual_subscribe(probe.clone());
-            Box::new(move || u.unsubscribe())
+            Box::new(move |guard: bool| {
+              if guard {
+                drop(u.unsubscribe_when_dropped())
+              } else {
+                u.unsubscribe()
+              }
+            })
           }
           Shape::ThenTake1 => {
             let u = src.clone().$fin(mk(&calls)).take(1).actual_subscribe(probe.clone());
-            Box::new(move || u.unsubscribe())
+            Box::new(move |guard: bool| {
+              if guard {
+                drop(u.unsubscribe_when_dropped())
+              } else {
+                u.unsubscribe()
+              }
+            })
           }
           Shape::AfterTake1 => {
             let u = src.clone().take(1).$fin(mk(&calls)).actual_subscribe(probe.clone());
-            Box::new(move || u.unsubscribe())
+            Box::new(move |guard: bool| {
+              if guard {
+                drop(u.unsubscribe_when_dropped())
+              } else {
+                u.unsubscribe()
+              }
+            })
           }
           Shape::Twice => {
             let u = src
@@ -76,18 +129,60 @@ macro_rules! fin_job {
               .$fin(mk(&calls))
               .$fin(mk(&calls2))
               .actual_subscribe(probe.clone());
-            Box::new(move || u.unsubscribe())
+            Box::new(move |guard: bool| {
+              if guard {
+                drop(u.unsubscribe_when_dropped())
+              } else {
+                u.unsubscribe()
+              }
+            })
+          }
+          Shape::Never => {
+            let u = observable::never()
+              .map(V::from)
+              .on_error_map(|e: std::convert::Infallible| -> E { match e {} })
+              .$fin(mk(&calls))
+              .actual_subscribe(probe.clone());
+            Box::new(move |guard: bool| {
+              if guard {
+                drop(u.unsubscribe_when_dropped())
+              } else {
+                u.unsubscribe()
+              }
+            })
+          }
+          Shape::RawThenTake1 => {
+            let st = stash.clone();
+            let u = observable::create(move |s: $subscriber<_>| {
+              *st.borrow_mut() = Some(Box::new(s) as Box<dyn RawHandle>);
+            })
+            .$fin(mk(&calls))
+            .take(1)
+            .actual_subscribe(probe.clone());
+            Box::new(move |guard: bool| {
+              if guard {
+                drop(u.unsubscribe_when_dropped())
+              } else {
+                u.unsubscribe()
+              }
+            })
           }
           Shape::Cloned => {
             let op = src.clone().$fin(mk(&calls));
             let u1 = op.clone().actual_subscribe(probe.clone());
             let u2 = op.actual_subscribe(probe2.clone());
-            Box::new(move || {
-              u1.unsubscribe();
-              u2.unsubscribe();
+            Box::new(move |guard: bool| {
+              if guard {
+                drop(u1.unsubscribe_when_dropped());
+                drop(u2.unsubscribe_when_dropped());
+              } else {
+                u1.unsubscribe();
+                u2.unsubscribe();
+              }
             })
           }
         });
+        let raw_closed = false;
         let mut triggered = false;
         // ThenTake1 only: the source ended after the downstream take(1) had
         // already completed; subjects do not notify finished observers, so
@@ -96,9 +191,13 @@ macro_rules! fin_job {
         let mut items = 0usize;
         let mut hist: Vec<&str> = vec![];
         for _ in 0..len {
-          let mut menu = vec!["next", "complete", "error"];
+          let mut menu = if shape == Shape::Never { vec![] } else { vec!["next", "complete", "error"] };
+          if shape == Shape::Never && sub.is_none() {
+            break;
+          }
           if sub.is_some() {
             menu.push("unsubscribe");
+            menu.push("drop-guard");
           }
           let act = menu[ch.choose(menu.len())];
           ch.label(|| act.to_string());
@@ -108,7 +207,13 @@ macro_rules! fin_job {
           let mut terminal_trigger = false;
           match act {
             "next" => {
-              src.next(V::I(0));
+              if shape == Shape::RawThenTake1 {
+                if let Some(h) = stash.borrow_mut().as_mut() {
+                  h.raw_next(V::I(0));
+                }
+              } else {
+                src.next(V::I(0));
+              }
               items += 1;
               if shape == Shape::AfterTake1 && items == 1 && !triggered {
                 triggered = true;
@@ -116,13 +221,23 @@ macro_rules! fin_job {
               }
             }
             "complete" | "error" => {
-              if act == "complete" {
+              if shape == Shape::RawThenTake1 {
+                if let Some(h) = stash.borrow().as_ref() {
+                  if act == "complete" {
+                    h.raw_dup().raw_complete();
+                  } else {
+                    h.raw_dup().raw_error(E::E0);
+                  }
+                }
+              } else if act == "complete" {
                 src.clone().complete();
               } else {
                 src.clone().error(E::E0);
               }
               if !triggered {
-                if shape == Shape::ThenTake1 && items > 0 {
+                if shape == Shape::RawThenTake1 && raw_closed {
+                  // the raw handle was already consumed by an earlier terminal
+                } else if shape == Shape::ThenTake1 && items > 0 {
                   maybe = true;
                 } else {
                   terminal_trigger = true;
@@ -130,9 +245,9 @@ macro_rules! fin_job {
                 }
               }
             }
-            "unsubscribe" => {
+            "unsubscribe" | "drop-guard" => {
               in_unsub.store(true, std::sync::atomic::Ordering::SeqCst);
-              (sub.take().unwrap())();
+              (sub.take().unwrap())(act == "drop-guard");
               in_unsub.store(false, std::sync::atomic::Ordering::SeqCst);
               triggered = true;
             }
@@ -207,8 +322,8 @@ macro_rules! fin_job {
   };
 }
 
-fin_job!(job_local, Subject<'static, V, E>, finalize, Form::Local);
-fin_job!(job_threads, SubjectThreads<V, E>, finalize_threads, Form::Threads);
+fin_job!(job_local, Subject<'static, V, E>, finalize, Form::Local, Subscriber);
+fin_job!(job_threads, SubjectThreads<V, E>, finalize_threads, Form::Threads, SubscriberThreads);
 
 pub fn plan(tier: Tier) -> Plan {
   let len = match tier {
@@ -216,7 +331,15 @@ pub fn plan(tier: Tier) -> Plan {
     Tier::Thorough => 10,
   };
   let mut jobs = vec![];
-  for shape in [Shape::Plain, Shape::ThenTake1, Shape::AfterTake1, Shape::Twice, Shape::Cloned] {
+  for shape in [
+    Shape::Plain,
+    Shape::ThenTake1,
+    Shape::AfterTake1,
+    Shape::Twice,
+    Shape::Cloned,
+    Shape::Never,
+    Shape::RawThenTake1,
+  ] {
     jobs.push(job_local(shape, len));
     jobs.push(job_threads(shape, len));
   }
@@ -226,8 +349,8 @@ pub fn plan(tier: Tier) -> Plan {
       prop: "C15".into(),
       tier: tier_name(tier),
       engine: "E1 opseq".into(),
-      rule: "every sequence up to the length bound over {next, complete, error (each through a fresh clone of the source handle), unsubscribe} on subject.finalize(f), .finalize(f).take(1), .take(1).finalize(f) and two stacked finalizers, local and _threads: the invocation counter is 0 before the first trigger, exactly 1 when the triggering call returns and for ever after; when the trigger is a terminal it has reached the subscriber before the callback runs; non-trivial = something was delivered or the finalizer ran".into(),
-      bounds: json!({"sequence_len": len, "shapes": 5, "forms": 2}),
+      rule: "every sequence up to the length bound over {next, complete, error (each through a fresh clone of the source handle), unsubscribe, dropping an unsubscribe_when_dropped guard} on subject.finalize(f), .finalize(f).take(1), .take(1).finalize(f), two stacked finalizers, a cloned finalize operator subscribed twice, never().finalize(f) and create(raw subscriber).finalize(f).take(1), local and _threads: the invocation counter is 0 before the first trigger, exactly 1 when the triggering call returns and for ever after; when the trigger is a terminal it has reached the subscriber before the callback runs; non-trivial = something was delivered or the finalizer ran".into(),
+      bounds: json!({"sequence_len": len, "shapes": 7, "forms": 2}),
       assumptions: vec![],
     },
   }
